@@ -1645,6 +1645,35 @@ def _(c):
         if kind == 'err':
             c.rec('C05', f"assembly of {tname}: fractional seconds never make the parse fail (a rounded-up fraction carries)",
                   v != 'InvalidFraction', f"returns {v}")
+            # an error must be justified: a field outside its own range, or the assembled value outside the range of the type
+            if tname in ('time::Time', 'interval::IntervalDT', 'interval::IntervalYM'):
+                if tname == 'interval::IntervalYM':
+                    mag = y.scale(12).add(mo)
+                    pos = [('cmp', 'ge', y, Form.const(0)), ('cmp', 'le', mo, Form.const(11)), ('cmp', 'le', mag, Form.const(INV[tname][1]))]
+                    neg = [('cmp', 'le', y, Form.const(0)), ('cmp', 'le', mo, Form.const(11)), ('cmp', 'le', y.neg().scale(12).add(mo), Form.const(INV[tname][1]))]
+                    alts = [pos, neg]
+                else:
+                    tod_ = h.scale(H_US).add(mi.scale(MI_US)).add(s.scale(S_US)).add(us)
+                    fields = [('cmp', 'le', h, Form.const(23)), ('cmp', 'le', mi, Form.const(59)), ('cmp', 'le', s, Form.const(59)),
+                              ('cmp', 'le', us, Form.const(1_000_000))]
+                    if tname == 'time::Time':
+                        alts = [fields + [('cmp', 'le', tod_, Form.const(INV[tname][1]))]]
+                    else:
+                        alts = [fields + [('cmp', 'le', d.scale(D_US).add(tod_), Form.const(INV[tname][1]))]]
+                feas = None
+                for preds in alts:
+                    cur = [st.copy()]
+                    for p_ in preds:
+                        nxt = []
+                        for s2 in cur:
+                            nxt.extend(c.I.assume(s2, p_, True))
+                        cur = nxt
+                    if cur:
+                        fs_ = cur[0]
+                        feas = ', '.join(f"{nm}={list(fs_.num.rng(fm))}" for nm, fm in (('day', d), ('hour', h), ('minute', mi), ('sec', s), ('usec', us), ('year', y), ('month', mo)) if fm.terms)
+                        break
+                c.rec('C05', f"assembly of {tname}: an error only for a field outside its range or a value outside the range of the type",
+                      feas is None, f"returns {v} although every field and the assembled value can be in range, e.g. with {feas}")
             continue
         if kind != 'ok':
             c.rec('C05', f"assembly of {tname}: result shape", False, f"{ret!r}")
